@@ -265,11 +265,40 @@ def _check_run_payload(check, an: Analysis):
            'the event\'s value', n_stop)
 
 
+def _fired_forms(an: Analysis) -> set:
+    """spellings of "this event has fired" on an Event: the flag itself, and properties /
+    getters of Event that return exactly its truth (directly or through each other)"""
+    forms = {'__usimpy_flag__'}
+    info = an.p.classes[EVENT]
+    changed = True
+    while changed:
+        changed = False
+        for name, method in info.methods.items():
+            spelled = name if method.is_property else '%s()' % name
+            if spelled in forms or method.kind != 'sync' or len(method.node.args.args) != 1:
+                continue
+            body = [st for st in method.node.body
+                    if not (isinstance(st, ast.Expr) and isinstance(st.value, ast.Constant))]
+            if len(body) != 1 or not isinstance(body[0], ast.Return) or \
+                    body[0].value is None:
+                continue
+            value = body[0].value
+            if isinstance(value, ast.Call) and isinstance(value.func, ast.Name) and \
+                    value.func.id == 'bool' and len(value.args) == 1:
+                value = value.args[0]
+            text = ast.unparse(value)
+            if text.startswith('self.') and text[5:] in forms:
+                forms.add(spelled)
+                changed = True
+    return forms
+
+
 def _check_condition_events(check, an: Analysis):
     chk = an.callee(CONDITION, '_check_events')
     fn = chk.fn
     paths = an.paths(chk, loop_bound=1)
     wait_ok, fail_ok, value_ok = True, True, True
+    fired_forms = _fired_forms(an)
     n_wait = n_fail = n_succeed = 0
     bad = {}
 
@@ -304,17 +333,25 @@ def _check_condition_events(check, an: Analysis):
                 loops = [e for e in events[:index] if e.kind == 'iter-next' and e.depth == 0]
                 member = ast.unparse(loops[-1].node.target) if loops else '?'
                 start = events.index(loops[-1]) if loops else 0
-                atoms = rules.path_atoms(path, start, index)
                 arg = event.node.args
                 text = rules.value_text(path, index, arg[0]) if len(arg) == 1 else '?'
-                defused = any(e.kind == 'store' and e['path'] == '%s.defused' % member
+                defused = any(e.kind == 'store' and isinstance(e.node, ast.Attribute)
+                              and rules.value_text(path, start + k, e.node)
+                              == '%s.defused' % member
                               and isinstance(e['value'], ast.Constant)
-                              and e['value'].value is True for e in events[start:index])
+                              and e['value'].value is True
+                              for k, e in enumerate(events[start:index]))
                 ended = not any(is_suspension(e) or is_call_to(e, 'succeed')
                                 for e in events[index + 1:])
+                # what was tested about the member in this pass (in whatever frame)
+                seen = {}
+                for k, e in enumerate(events[start:index]):
+                    if e.kind == 'test' and e.depth == 0 and not e.get('inlined'):
+                        seen[rules.value_text(path, start + k, e.node)] = e['value']
+                fired = [seen.get('%s.%s' % (member, form)) for form in fired_forms
+                         if '%s.%s' % (member, form) in seen]
                 good = text == '%s.value' % member and defused and ended and \
-                    atoms.get(('truth', '%s.__usimpy_flag__' % member)) is True and \
-                    atoms.get(('truth', '%s.ok' % member)) is False
+                    fired == [True] and seen.get('%s.ok' % member) is False
                 if not good:
                     fail_ok = flag('failure', path, index)
             elif event.kind in ('call', 'enter') and is_call_to(event, 'succeed') and \
@@ -664,9 +701,19 @@ def run(check, an: Analysis):
                        'decided by `exception is None`, not by the truth of the value '
                        '(%d return paths)' % n, analysed=n)
         okm = an.method(cls_qn, 'ok')
+        # "not triggered yet" is what the constructor stores: None or a module level marker
+        initial = set()
+        for path in an.paths(an.callee(cls_qn, '__init__')):
+            for index, event in enumerate(path.events):
+                if event.kind == 'store' and event.get('path') == 'self._value' and \
+                        event.data.get('value') is not None:
+                    initial.add(rules.value_text(path, index, event['value']))
+        marker = next(iter(initial)) if len(initial) == 1 else '?'
         try:
-            same = equivalent_terms(function_predicate(okm.node), bool_term(ast.parse(
-                'self._value is not None and self._value[1] is None', mode='eval').body))
+            same = (marker == 'None' or marker.isidentifier()) and equivalent_terms(
+                function_predicate(okm.node), bool_term(ast.parse(
+                    'self._value is not %s and self._value[1] is None' % marker,
+                    mode='eval').body))
         except Exception:
             same = False
         check.instance('P', '%s.ok' % label, same, where_fn(okm),
@@ -820,12 +867,20 @@ def run(check, an: Analysis):
         if inside:
             kinds['inside'] = path.kind == 'raise' and path.outcome[1].cls.endswith(
                 'NotCompatibleError')
-        elif path.kind == 'return':
-            kinds['returns'] = rules.value_text(
-                path, len(path.events), path.outcome[1]) == 'until.value' and any(
-                is_call_to(e, 'run') or (e.kind == 'call' and isinstance(e.node, ast.Call)
-                                         and rules.text_at(path, e, e.node.func) == 'usim_run')
-                for e in path.events)
+        elif path.normal:
+            # after the run: an event given as `until` that has fired gives its value
+            atoms = rules.path_atoms(path)
+            fired = [value for key, value in atoms.items() if key[0] == 'truth'
+                     and key[1] in ('until.triggered', 'until._is_triggered()')]
+            if atoms.get(('truth', 'isinstance(until, Event)')) is True and fired == [True]:
+                good = path.kind == 'return' and path.outcome[1] is not None and \
+                    rules.value_text(path, len(path.events), path.outcome[1]) == \
+                    'until.value' and any(
+                        is_call_to(e, 'run') or (
+                            e.kind == 'call' and isinstance(e.node, ast.Call)
+                            and rules.text_at(path, e, e.node.func) == 'usim_run')
+                        for e in path.events)
+                kinds['returns'] = kinds.get('returns', True) and good
     check.instance('U', 'run:inside-refused', kinds.get('inside') is True, where_fn(runm.fn),
                    'env.run inside a usim simulation raises NotCompatibleError')
     check.instance('U', 'run:returns-event-value', kinds.get('returns') is True,
